@@ -725,7 +725,7 @@ func c03Periodic(c *core.Ctx, rule string, withUpdateSibling bool) {
 					// Reporting Triggers IE
 					loc := core.CallRecv(cl)
 					core.Instrs(create, func(in2 ssa.Instruction) {
-						if uc, ok := in2.(*ssa.Call); ok && core.Callee(uc) != nil && core.Callee(uc).Name() == "Unmarshal" && core.CallRecv(uc) != nil && sameAddr(core.CallRecv(uc), loc) {
+						if uc, ok := in2.(*ssa.Call); ok && core.Callee(uc) != nil && core.Callee(uc).Name() == "Unmarshal" && core.CallRecv(uc) != nil && (sameAddr(core.CallRecv(uc), loc) || copiedFrom(loc, core.CallRecv(uc))) {
 							if x.describeLeaf(core.CallArgs(uc)[0], 0) == "ReportingTriggers()" {
 								guard = true
 							}
@@ -1040,4 +1040,28 @@ func driverHandsOver(c *core.Ctx, rule string, kinds []string) {
 				map[bool]string{true: "", false: " — " + bad}[bad == ""])
 		}
 	}
+}
+
+// copiedFrom: the local `dst` holds a whole copy of the local `src` (possibly through further whole copies): the
+// result of a decode helper that was expanded into this function.
+func copiedFrom(dst, src ssa.Value) bool {
+	al, ok := dst.(*ssa.Alloc)
+	for i := 0; ok && i < 4; i++ {
+		sv, has := aggregateSingleStore(al)
+		if !has {
+			sv, has = soleWholeStore(al)
+		}
+		if !has {
+			return false
+		}
+		a2 := structCopySource(sv, 0)
+		if a2 == nil {
+			return false
+		}
+		if ssa.Value(a2) == src {
+			return true
+		}
+		al = a2
+	}
+	return false
 }
